@@ -59,6 +59,11 @@ def run(ctx, res):
     from ..channelrules import rule_hold_bound
     res.guard(rule_hold_bound, prog, res)
     res.require_min("R-HOLD-BOUND", 5)
+    # "zero-copy consumers never see a frame change under them": the sink gives its region back to the writer
+    # only after storage_append has returned for it (R-CONSUME, append mode: an append lies between map and release)
+    from .. import runtimerules as _RRc
+    res.guard(_RRc.rule_consume_file, prog, res, "video_sink_thread", "append")
+    res.require_min("R-CONSUME", 2)
     res.require_min("R-WRITE-GUARD", 1)
     res.require_min("R-ENCAPS", 5)
     res.require_min("L-GUARDED", 40)
